@@ -9,7 +9,7 @@ from vf.spec import cdb as S
 ID = "C02"
 LEVEL = "exploration"
 TECHNIQUE = "deviation-bounded exhaustive enumeration of joint field assignments and of library-built CDBs; marshall_cdb/unmarshall_cdb compared with an independent spec codec in both directions"
-RULE = ("per class a derived class with a layout of its own (the widest field re-cut into two under new names): its codec follows its own table only; field dictionaries also as a read-only mappingproxy and as a row object whose iteration yields values (baseline and single deviations); an opcode scan in one process (a CDB marshalled for each of the 256 operation code values, 4 orders; ten classes built, decoded and re-encoded before and after every 32 values: unchanged); per class: (a) joint assignments to all CDB fields at once (service action included; the operation code over all codes of the class's CDB-length group), every assignment deviating "
+RULE = ("5 x 5 classes of all CDB length groups: B built / decoded / re-encoded in the same thread between two library lines of A, at every line; per class a derived class with a layout of its own (the widest field re-cut into two under new names): its codec follows its own table only; field dictionaries also as a read-only mappingproxy and as a row object whose iteration yields values (baseline and single deviations); an opcode scan in one process (a CDB marshalled for each of the 256 operation code values, 4 orders; ten classes built, decoded and re-encoded before and after every 32 values: unchanged); per class: (a) joint assignments to all CDB fields at once (service action included; the operation code over all codes of the class's CDB-length group), every assignment deviating "
         "from the all-zero and from the all-ones baseline in at most k fields (k=2 quick, 3 thorough), each deviating field over its whole "
         "alphabet; the spec encoder turns the assignment into bytes, then unmarshall_cdb(bytes) must equal the assignment, "
         "marshall_cdb(assignment) and marshall_cdb(unmarshall_cdb(bytes)) must equal the bytes, and relative to the baseline only the "
@@ -39,8 +39,11 @@ MAXTASKS = 1          # every partition in a freshly forked process (the first-u
 N_FIRST = 13
 
 
+REENTRANT_CLASSES = ["TestUnitReady", "Read10", "Read12", "Read16", "Inquiry"]
+
+
 def partitions(tier):
-    return [[n] for n in S.CLASSES] + [["first-use", i] for i in range(N_FIRST)] + [["scan", o] for o in ("up", "down", "groups", "interleaved")]
+    return [[n] for n in S.CLASSES] + [["first-use", i] for i in range(N_FIRST)] + [["scan", o] for o in ("up", "down", "groups", "interleaved")] + [["reentrant", a] for a in REENTRANT_CLASSES]
 
 
 def first_action(i):
@@ -415,6 +418,9 @@ def run_case(case):
     if case[0] == "scan":
         from vf.props import c09
         return c09.run_scan(case[1])
+    if case[0] == "reentrant":
+        from vf.props import c09
+        return c09.run_reentrant(case[1], case[2])[0]
     name, mode = case[0], case[1]
     cls, inst, op = fresh_instance(name)
     if mode == "assign":
@@ -474,6 +480,19 @@ def replay(case):
 def run_partition(part, tier, seed):
     acc = Acc(seed)
     name = part[0]
+    if name == "reentrant":
+        # a second command built, decoded and re-encoded in the SAME thread between two library lines of the first (signal handler,
+        # finalizer), at every line in turn - classes of all four CDB length groups (shared with C09)
+        from vf.props import c09
+        for b in REENTRANT_CLASSES:
+            case = ["reentrant", part[1], b]
+            acc.case(case, nontrivial=True, key=tuple(case))
+            v, npoints = c09.run_reentrant(part[1], b, acc)
+            acc.add("reentrancy_points", npoints)
+            for k, what in v:
+                acc.violation(k, what, case)
+            acc.outcome((tuple(case), npoints, tuple(k for k, _ in v)))
+        return acc
     if name == "scan":
         # many distinct operation codes through the codec in ONE process (an opcode scanner): build / decode / re-encode of ten classes
         # observed before and after every 32 of the 256 values (shared with C09)
